@@ -47,6 +47,18 @@ def run(tier):
     for flag in (True, False):
         jobs.append({"key": f"func-exact-{flag}", "text": FUNC_PROG, "goals": [[["x", 1]]], "subs": {}, "nmax": 3,
                      "settings": {"exact_func_moments": flag}})
+    # programs that reuse each other's variable names in different roles (functional variable vs ordinary variable,
+    # draw vs counter): state that leaks between analyses is keyed on names
+    reuse = [
+        ("reuse-func", "u = 0\ns = 0\nx = 0\nwhile true:\n    u = Normal(0, 1)\n    s = Sin(u)\n    x = x + s\nend\n", [[["x", 1]], [["s", 2]]]),
+        ("reuse-plain", "s = 1\nu = 0\nx = 0\nwhile true:\n    u = Normal(0, 1)\n    x = x + s*u\n    s = (-1)*s\nend\n", [[["x", 2]], [["s", 1], ["u", 1]], [["x", 1]]]),
+        ("reuse-cos", "u = 0\nc = 0\nx = 0\nwhile true:\n    u = Uniform(0, 1)\n    c = Cos(u)\n    x = x + c*u\nend\n", [[["x", 1]]]),
+        ("reuse-c-bernoulli", "c = 0\nu = 1\nx = 0\nwhile true:\n    c = Bernoulli(1/2)\n    u = u + c\n    x = x + c*u\nend\n", [[["x", 1]], [["c", 1], ["u", 1]]]),
+    ]
+    for key, text, goals in reuse:
+        for flag in (True, False):
+            jobs.append({"key": f"{key}-{flag}", "text": text, "goals": goals, "subs": {}, "nmax": 3,
+                         "settings": {"exact_func_moments": flag}})
     bykey = {j["key"]: j for j in jobs}
     # (a) baseline: every job alone in a fresh process
     base_out = run_tasks([{"fn": "harness.tasks.session:session", "args": {"jobs": [j]}} for j in jobs],
